@@ -37,9 +37,9 @@ type fnCase struct {
 	F       []string `json:"F"`
 	Custom  bool     `json:"custom"`
 	NilRecv bool     `json:"nilrecv"`
-	Sret    string   `json:"sret"`    // what the stubs return: "val" (value, nil error) or "err" (value and error)
+	Sret    string   `json:"sret"`           // what the stubs return: "val" (value, nil error) or "err" (value and error)
 	ArgSeed int64    `json:"argseed,string"` // seed of the argument and result values
-	Pred    string   `json:"pred"`    // TLC's predicted outcome kind for exported cases, "-" otherwise (opaque here)
+	Pred    string   `json:"pred"`           // TLC's predicted outcome kind for exported cases, "-" otherwise (opaque here)
 }
 
 var (
